@@ -176,6 +176,10 @@ class C01(CheckBase):
                     acts.append(("login", i, C.CKU_SO))
             else:
                 acts.append(("logout", i))
+        # calls that handle PINs but must NOT change who is logged in (the model state stays the same; the probe matrix runs after them like after every call)
+        for i in sorted({0, len(m.sess) - 1} if m.sess else ()):
+            for what in ("setpin-same", "setpin-wrong-old", "login-wrong-pin", "login-context-specific"):
+                acts.append(("pincall", i, what))
         return acts
 
     def step(self, ctx, m, a):
@@ -209,6 +213,17 @@ class C01(CheckBase):
             pin = {("A", C.CKU_USER): W.USER_A, ("A", C.CKU_SO): W.SO_A, ("B", C.CKU_USER): W.USER_B, ("B", C.CKU_SO): W.SO_B}[(t, a[2])]
             if p.Login(h, a[2], pin)["rv"] == 0:
                 m.login[t] = USER if a[2] == C.CKU_USER else SO
+        elif k == "pincall":
+            h, t, rw = m.sess[a[1]]
+            cur = {("A", PUBLIC): W.USER_A, ("A", USER): W.USER_A, ("A", SO): W.SO_A, ("B", PUBLIC): W.USER_B, ("B", USER): W.USER_B, ("B", SO): W.SO_B}[(t, m.login[t])]
+            if a[2] == "setpin-same":
+                p.SetPIN(h, cur, cur)                   # "verify a PIN without logging in": allowed in RW sessions, changes nothing
+            elif a[2] == "setpin-wrong-old":
+                p.SetPIN(h, W.WRONG, cur)
+            elif a[2] == "login-wrong-pin":
+                p.Login(h, C.CKU_USER, W.WRONG)
+            else:
+                p.Login(h, C.CKU_CONTEXT_SPECIFIC, cur)
         elif k == "logout":
             h, t, rw = m.sess[a[1]]
             if p.Logout(h)["rv"] == 0:
@@ -385,7 +400,7 @@ def main(tier):
     rep = Report("C01", tier, "model_checking")
     quick = tier == "quick"
     variant = "ossl-asan" if quick else "ossl-plain"
-    deadline = time.time() + (170 if quick else 1700)
+    deadline = time.time() + (600 if quick else 2400)
     cfgs = [("<=2 sessions on A, 1 on B; 9 object classes", dict(max_a=2, max_b=1), 30, 0)] if quick else \
            [("<=3 sessions on A, 1 on B; 9 object classes", dict(max_a=3, max_b=1), 40, 4)]
     runs, samples, counters = [], [], {}
